@@ -277,33 +277,46 @@ Section Impose.
     end.
 
   Inductive at_target := AtScalar (t : E) | AtList (ts : list E).
-  (* x[[i for i in index if i < len(x)]] = target   (numpy fancy assignment; a list target must have as many
-     entries as kept indices, or exactly one) *)
+  (* scalar target: x[[i for i in index if i < len(x)]] = target
+     list target:   at = [(i,t) for (i,t) in zip(index, target) if i < len(x)]; x[[i..]] = [t..]
+     (each target is dropped together with its out-of-range index; zip truncates to the shorter sequence) *)
   Definition impose_at (idx : list nat) (tg : at_target) (x : list E) : res (list E) :=
-    let kept := filter (fun i => Nat.ltb i (length x)) idx in
     match tg with
-    | AtScalar t => Ok (fold_left (fun y i => set_nth i t y) kept x)
+    | AtScalar t => Ok (fold_left (fun y i => set_nth i t y) (filter (fun i => Nat.ltb i (length x)) idx) x)
     | AtList ts =>
-      if Nat.eqb (length ts) (length kept) then Ok (fold_left (fun y p => set_nth (fst p) (snd p) y) (combine kept ts) x)
-      else match ts with
-           | [t] => Ok (fold_left (fun y i => set_nth i t y) kept x)
-           | _ => Err ErrValue
-           end
+      Ok (fold_left (fun y p => set_nth (fst p) (snd p) y)
+                    (filter (fun p => Nat.ltb (fst p) (length x)) (combine idx ts)) x)
     end.
 
-  (* tools.connected(pairs): order-sensitive grouping, transcribed (groups are NOT merged) *)
+  (* AbstractSolver.__collapse_constraints for CollapseAt with a list target (as repaired by fix 3c01a6d):
+     at = tuple(collapses[k]); t = tuple(t[i] for i in at); impose_at(at, t)  -- each collapsed index gets ITS OWN target *)
+  Definition select_targets (idx : list nat) (ts : list E) : list E := map (fun i => nth i ts (zero N)) idx.
+  Definition collapse_at_list (idx : list nat) (ts : list E) (x : list E) : res (list E) :=
+    impose_at idx (AtList (select_targets idx ts)) x.
+
+  (* tools.connected(pairs): groups as an insertion-ordered dict {key: set of members}.  For each pair (i,j), i <> j:
+     ki / kj = key of the first group holding i / j;  neither -> new group {i: {j}};  one -> the other index joins
+     that group;  both and different -> group kj is popped and merged (with its key) into group ki. *)
   Definition in_group (i : nat) (g : nat * list nat) : bool := (Nat.eqb i (fst g) || memb i (snd g))%bool.
-  Definition add_to (j : nat) (g : nat * list nat) : nat * list nat := if memb j (snd g) then g else (fst g, snd g ++ [j]).
-  Fixpoint place (i j : nat) (gs : list (nat * list nat)) : option (list (nat * list nat)) :=
-    match gs with
-    | [] => None
-    | g :: r =>
-      if in_group i g then Some (add_to j g :: r)
-      else if in_group j g then Some (add_to i g :: r)
-      else match place i j r with Some r' => Some (g :: r') | None => None end
+  Definition key_of (i : nat) (gs : list (nat * list nat)) : option nat :=
+    match find (in_group i) gs with Some g => Some (fst g) | None => None end.
+  Definition add_members (k : nat) (l : list nat) (gs : list (nat * list nat)) : list (nat * list nat) :=
+    map (fun g => if Nat.eqb (fst g) k then (fst g, snd g ++ l) else g) gs.
+  Definition followers (k : nat) (gs : list (nat * list nat)) : list nat :=
+    match find (fun g => Nat.eqb (fst g) k) gs with Some g => snd g | None => [] end.
+  Definition remove_key (k : nat) (gs : list (nat * list nat)) : list (nat * list nat) :=
+    filter (fun g => negb (Nat.eqb (fst g) k)) gs.
+  Definition connect_step (gs : list (nat * list nat)) (p : nat * nat) : list (nat * list nat) :=
+    let i := fst p in let j := snd p in
+    if Nat.eqb i j then gs else
+    match key_of i gs, key_of j gs with
+    | None, None => gs ++ [(i, [j])]
+    | Some ki, None => add_members ki [j] gs
+    | None, Some kj => add_members kj [i] gs
+    | Some ki, Some kj =>
+      if Nat.eqb ki kj then gs else add_members ki (followers kj gs ++ [kj]) (remove_key kj gs)
     end.
-  Definition connected (pairs : list (nat * nat)) : list (nat * list nat) :=
-    fold_left (fun gs p => match place (fst p) (snd p) gs with Some gs' => gs' | None => gs ++ [(fst p, [snd p])] end) pairs [].
+  Definition connected (pairs : list (nat * nat)) : list (nat * list nat) := fold_left connect_step pairs [].
 
   (* for i,j in pairs.items(): for k in j: try: x[k] = x[i] except IndexError: pass *)
   Definition copy_to (i k : nat) (x : list E) : list E :=
